@@ -102,7 +102,23 @@ pub fn gen_pair(ch: &mut Chooser) -> Pair {
     let (mut ia, mut ib) = (0, 0);
     let mut schedule = vec![];
     // scripted openings: the situations in which per-thread or per-process state would be confused
-    match ch.below(16) {
+    let mut forced_probes: Vec<usize> = vec![];
+    match ch.below(17) {
+        16 => {
+            // B defines a macro under a name that A (or the bundled library source, read again for every new instance) uses
+            // as the name of an ordinary procedure / parameter; B's next use of its macro follows A's call or the creation
+            // of a new instance
+            let name = *ch.pick(&["twice", "proc", "f", "pred", "lst", "x"]);
+            b.splice(0..0, [format!("(define-syntax {n} (syntax-rules () (({n} e) (list 'b-macro e e))))", n = name), format!("({} 4)", name), format!("({} 5)", name), format!("(list ({} 6))", name)]);
+            a.splice(0..0, [format!("(define ({} v) (list 'a-procedure v))", name), format!("({} 4)", name), format!("(map {} '(1 2))", name)]);
+            // B define, B use, A define, A call, B use, [new instance], A map, B use
+            schedule.extend([false, false, true, true, false, true, false]);
+            forced_probes.push(5);
+            ia = 3;
+            ib = 4;
+            labels.push("b-defines-syntax");
+            labels.push("keyword-of-b-is-a-procedure-name-elsewhere");
+        }
         15 => {
             // A prints empty and other vectors and drops them; the vectors B prints next are new objects (possibly at the
             // addresses of A's)
@@ -262,7 +278,8 @@ pub fn gen_pair(ch: &mut Chooser) -> Pair {
         }
     }
     let n_probes = ch.below(3);
-    let probes = (0..n_probes).map(|_| ch.below(schedule.len() + 1)).collect();
+    let mut probes: Vec<usize> = (0..n_probes).map(|_| ch.below(schedule.len() + 1)).collect();
+    probes.extend(forced_probes);
     labels.sort();
     labels.dedup();
     let a_lib_macro = if ch.chance(1, 3) {
